@@ -47,6 +47,13 @@ OmitOutput(c) ==
   IF DefaultOut(c) # <<>> /\ DefaultOut(c) = c.outs
   THEN {Pair("omitted_output", InsToks(c), DescToks(c), NoKw, "same")} ELSE {}
 
+(* the default output of an element-wise operation exists only "if this choice is unique": inputs none of which contains
+   the axis names of all others, or several different ones that do, have no default - the short form has to be rejected *)
+SupExprs(c) == {c.ins[i1] : i1 \in {i2 \in DOMAIN c.ins : \A j1 \in DOMAIN c.ins : NameSet(c.ins[j1]) \subseteq NameSet(c.ins[i2])}}
+OmitOutputNotUnique(c) ==
+  IF c.fam = "elementwise" /\ Len(c.ins) >= 2 /\ Cardinality(SupExprs(c)) # 1      \* none, or several DIFFERENT candidate expressions
+  THEN {Pair("omitted_output_not_unique", InsToks(c), InsToks(c), NoKw, "reject")} ELSE {}
+
 (* --- rule: un-bracketed reduction / dot --- *)
 Unbracketed(c) ==
   IF c.fam \in {"reduce", "dot"}
@@ -167,7 +174,7 @@ EllScalar(c) ==
 EllScalarCases == {[fam |-> "ellscalar", r |-> r, av |-> av, cv |-> cv, dv |-> dv, tail |-> tl] : r \in 1..3, av \in 1..3, cv \in 1..3, dv \in 1..3, tl \in BOOLEAN}
 
 RulePairs(c) == IF c.fam = "ellscalar" THEN EllScalar(c) ELSE
-            OmitOutput(c) \cup Unbracketed(c) \cup MergedBrackets(c) \cup Numbers(c) \cup NumberOmitted(c) \cup Spaces(c) \cup Keepdims(c)
+            OmitOutput(c) \cup OmitOutputNotUnique(c) \cup Unbracketed(c) \cup MergedBrackets(c) \cup Numbers(c) \cup NumberOmitted(c) \cup Spaces(c) \cup Keepdims(c)
             \cup Ellipses(c) \cup NestedArrow(c) \cup NestedComma(c) \cup Unit1Bracket(c) \cup Rearrange(c)
 
 ---------------------------------------------------------------------------
